@@ -45,5 +45,7 @@ where
     P: AsRef<Path>,
 {
     let mut writer = File::create(dst).map(Writer::new)?;
-    writer.write_index(index)
+    writer.write_index(index)?;
+    // Finish explicitly, as errors are discarded when the BGZF writer is dropped.
+    writer.get_mut().try_finish()
 }
